@@ -143,11 +143,22 @@ class Serializable(object):  # pylint: disable=too-few-public-methods
         elif hasattr(obj, '__dict__'):
             result = Serializable._json_traverse(obj.__dict__, result_func)
         elif isinstance(obj, (list, tuple, frozenset, set)):
-            result = [Serializable._json_traverse(item, result_func) for item in obj]
+            result = [Serializable._json_traverse(item, result_func) for item in Serializable._in_defined_order(obj)]
         else:
             result = result_func(obj)
 
         return result
+
+    @staticmethod
+    def _in_defined_order(obj):
+        # the iteration order of a set depends on how it was built, equal sets have to give the same output
+        if not isinstance(obj, (set, frozenset)):
+            return obj
+
+        try:
+            return sorted(obj)
+        except TypeError:
+            return sorted(obj, key=lambda item: (type(item).__name__, item.name if isinstance(item, enum.Enum) else repr(item)))
 
     @staticmethod
     def _markdown_indent_from_level(level):
@@ -214,7 +225,7 @@ class Serializable(object):  # pylint: disable=too-few-public-methods
         indent = Serializable._markdown_indent_from_level(level)
 
         result = ''
-        for index, item in enumerate(obj):
+        for index, item in enumerate(Serializable._in_defined_order(obj)):
             multiline, markdnow_result = cls._markdown_result(item, level + 1)
             result += '{indent}{index}.{separator}{value}{newline}'.format(
                 indent=indent,
